@@ -17,6 +17,13 @@ var pureFunSpecs = []pfSpec{
 		reads: []string{"GetAssetRatesParams"}},
 	{pkg: "x/lend/keeper", recv: "Keeper", fn: "GetLendAPRByAssetIDAndPoolID", coq: "gen_lend_GetLendAPR",
 		reads: []string{"GetAssetRatesParams"}},
+	{pkg: "x/lend/keeper", recv: "Keeper", fn: "UpdateAPR", coq: "gen_lend_UpdateAPR",
+		reads: []string{"GetAssetStatsByPoolIDAndAssetID"}},
+	{pkg: "x/lend/keeper", recv: "Keeper", fn: "GetAverageBorrowRate", coq: "gen_lend_GetAverageBorrowRate",
+		errs: map[string]int{"types.ErrAverageBorrowRate": 8}},
+	{pkg: "x/lend/keeper", recv: "Keeper", fn: "GetSavingRate", coq: "gen_lend_GetSavingRate",
+		reads: []string{"GetAssetRatesParams"}},
+	{pkg: "x/lend/keeper", recv: "Keeper", fn: "GetReserveRate", coq: "gen_lend_GetReserveRate"},
 	// x/auctionsV2/keeper/maths.go (C10)
 	{pkg: "x/auctionsV2/keeper", fn: "Multiply", coq: "gen_auctionsV2_Multiply"},
 	{pkg: "x/auctionsV2/keeper", recv: "Keeper", fn: "GetCollalteralTokenInitialPrice", coq: "gen_auctionsV2_InitialPrice"},
